@@ -1,0 +1,199 @@
+//go:build verif
+
+// Verification hooks for the handshake message codecs (add-only, compiled only with -tags verif).
+// For every handshake message type: VerifUnmarshalX(data) runs X.unmarshal on data and returns
+// (accepted, the fields as a neutral exported struct, the result of marshal after clearing the
+// raw cache); VerifMarshalX(fields) runs X.marshal on a message built from the neutral fields.
+// No recover here: a panic propagates to the caller.
+
+package tlcp
+
+// VerifTA mirrors TrustedAuthority.
+type VerifTA struct {
+	Type uint8  `json:"type"`
+	ID   []byte `json:"id"`
+}
+
+// VerifHS is the union of the fields of all handshake messages.
+type VerifHS struct {
+	// hello messages
+	Vers       uint16    `json:"vers,omitempty"`
+	Random     []byte    `json:"random,omitempty"`
+	SessionID  []byte    `json:"sid,omitempty"`
+	Cookie     []byte    `json:"cookie,omitempty"`
+	Suites     []uint16  `json:"suites,omitempty"`
+	Comp       []byte    `json:"comp,omitempty"`
+	ServerName []byte    `json:"sni,omitempty"`
+	TAs        []VerifTA `json:"tas,omitempty"`
+	OCSP       bool      `json:"ocsp,omitempty"`
+	Curves     []uint16  `json:"curves,omitempty"`
+	SigAlgs    []uint16  `json:"sigalgs,omitempty"`
+	ALPNs      [][]byte  `json:"alpns,omitempty"`
+	ClientID   []byte    `json:"cid,omitempty"`
+	Suite      uint16    `json:"suite,omitempty"`
+	CompMethod uint8     `json:"comp_method,omitempty"`
+	OCSPResp   []byte    `json:"ocsp_resp,omitempty"`
+	ALPN       []byte    `json:"alpn,omitempty"`
+	SNIAck     bool      `json:"sni_ack,omitempty"`
+	// certificate
+	Certs [][]byte `json:"certs,omitempty"`
+	// serverKeyExchange.key / clientKeyExchange.ciphertext / certificateVerify.signature / finished.verifyData
+	Blob []byte `json:"blob,omitempty"`
+	// certificateRequest
+	CertTypes []byte   `json:"cert_types,omitempty"`
+	CAs       [][]byte `json:"cas,omitempty"`
+	// dtlcp header fields (unused in tlcp)
+	Seq  uint16 `json:"seq,omitempty"`
+	Off  uint32 `json:"off,omitempty"`
+	FLen uint32 `json:"flen,omitempty"`
+}
+
+func verifCHFrom(f VerifHS) *clientHelloMsg {
+	m := &clientHelloMsg{vers: f.Vers, random: f.Random, sessionId: f.SessionID, cipherSuites: f.Suites,
+		compressionMethods: f.Comp, serverName: string(f.ServerName), ocspStapling: f.OCSP, ibsdhClientID: f.ClientID}
+	for _, t := range f.TAs {
+		m.trustedAuthorities = append(m.trustedAuthorities, TrustedAuthority{IdentifierType: t.Type, Identifier: t.ID})
+	}
+	for _, c := range f.Curves {
+		m.supportedCurves = append(m.supportedCurves, CurveID(c))
+	}
+	for _, s := range f.SigAlgs {
+		m.supportedSignatureAlgorithms = append(m.supportedSignatureAlgorithms, SignatureScheme(s))
+	}
+	for _, p := range f.ALPNs {
+		m.alpnProtocols = append(m.alpnProtocols, string(p))
+	}
+	return m
+}
+
+func verifCHTo(m *clientHelloMsg) (f VerifHS) {
+	f.Vers, f.Random, f.SessionID, f.Suites, f.Comp = m.vers, m.random, m.sessionId, m.cipherSuites, m.compressionMethods
+	f.ServerName, f.OCSP, f.ClientID = []byte(m.serverName), m.ocspStapling, m.ibsdhClientID
+	for _, t := range m.trustedAuthorities {
+		f.TAs = append(f.TAs, VerifTA{t.IdentifierType, t.Identifier})
+	}
+	for _, c := range m.supportedCurves {
+		f.Curves = append(f.Curves, uint16(c))
+	}
+	for _, s := range m.supportedSignatureAlgorithms {
+		f.SigAlgs = append(f.SigAlgs, uint16(s))
+	}
+	for _, p := range m.alpnProtocols {
+		f.ALPNs = append(f.ALPNs, []byte(p))
+	}
+	return
+}
+
+func VerifMarshalClientHello(f VerifHS) ([]byte, error) { return verifCHFrom(f).marshal() }
+func VerifUnmarshalClientHello(data []byte) (ok bool, f VerifHS, re []byte, err error) {
+	m := new(clientHelloMsg)
+	if ok = m.unmarshal(data); ok {
+		f = verifCHTo(m)
+		m.raw = nil
+		re, err = m.marshal()
+	}
+	return
+}
+
+func VerifMarshalServerHello(f VerifHS) ([]byte, error) {
+	return (&serverHelloMsg{vers: f.Vers, random: f.Random, sessionId: f.SessionID, cipherSuite: f.Suite,
+		compressionMethod: f.CompMethod, ocspStapling: f.OCSP, ocspResponse: f.OCSPResp, alpnProtocol: string(f.ALPN),
+		serverNameAck: f.SNIAck}).marshal()
+}
+func VerifUnmarshalServerHello(data []byte) (ok bool, f VerifHS, re []byte, err error) {
+	m := new(serverHelloMsg)
+	if ok = m.unmarshal(data); ok {
+		f = VerifHS{Vers: m.vers, Random: m.random, SessionID: m.sessionId, Suite: m.cipherSuite, CompMethod: m.compressionMethod,
+			OCSP: m.ocspStapling, OCSPResp: m.ocspResponse, ALPN: []byte(m.alpnProtocol), SNIAck: m.serverNameAck}
+		m.raw = nil
+		re, err = m.marshal()
+	}
+	return
+}
+
+func VerifMarshalCertificate(f VerifHS) ([]byte, error) {
+	return (&certificateMsg{certificates: f.Certs}).marshal()
+}
+func VerifUnmarshalCertificate(data []byte) (ok bool, f VerifHS, re []byte, err error) {
+	m := new(certificateMsg)
+	if ok = m.unmarshal(data); ok {
+		f.Certs = m.certificates
+		m.raw = nil
+		re, err = m.marshal()
+	}
+	return
+}
+
+func VerifMarshalServerKeyExchange(f VerifHS) ([]byte, error) {
+	return (&serverKeyExchangeMsg{key: f.Blob}).marshal()
+}
+func VerifUnmarshalServerKeyExchange(data []byte) (ok bool, f VerifHS, re []byte, err error) {
+	m := new(serverKeyExchangeMsg)
+	if ok = m.unmarshal(data); ok {
+		f.Blob = m.key
+		m.raw = nil
+		re, err = m.marshal()
+	}
+	return
+}
+
+func VerifMarshalCertificateRequest(f VerifHS) ([]byte, error) {
+	return (&certificateRequestMsg{certificateTypes: f.CertTypes, certificateAuthorities: f.CAs}).marshal()
+}
+func VerifUnmarshalCertificateRequest(data []byte) (ok bool, f VerifHS, re []byte, err error) {
+	m := new(certificateRequestMsg)
+	if ok = m.unmarshal(data); ok {
+		f.CertTypes, f.CAs = m.certificateTypes, m.certificateAuthorities
+		m.raw = nil
+		re, err = m.marshal()
+	}
+	return
+}
+
+func VerifMarshalServerHelloDone(f VerifHS) ([]byte, error) { return (&serverHelloDoneMsg{}).marshal() }
+func VerifUnmarshalServerHelloDone(data []byte) (ok bool, f VerifHS, re []byte, err error) {
+	m := new(serverHelloDoneMsg)
+	if ok = m.unmarshal(data); ok {
+		re, err = m.marshal()
+	}
+	return
+}
+
+func VerifMarshalClientKeyExchange(f VerifHS) ([]byte, error) {
+	return (&clientKeyExchangeMsg{ciphertext: f.Blob}).marshal()
+}
+func VerifUnmarshalClientKeyExchange(data []byte) (ok bool, f VerifHS, re []byte, err error) {
+	m := new(clientKeyExchangeMsg)
+	if ok = m.unmarshal(data); ok {
+		f.Blob = m.ciphertext
+		m.raw = nil
+		re, err = m.marshal()
+	}
+	return
+}
+
+func VerifMarshalCertificateVerify(f VerifHS) ([]byte, error) {
+	return (&certificateVerifyMsg{signature: f.Blob}).marshal()
+}
+func VerifUnmarshalCertificateVerify(data []byte) (ok bool, f VerifHS, re []byte, err error) {
+	m := new(certificateVerifyMsg)
+	if ok = m.unmarshal(data); ok {
+		f.Blob = m.signature
+		m.raw = nil
+		re, err = m.marshal()
+	}
+	return
+}
+
+func VerifMarshalFinished(f VerifHS) ([]byte, error) {
+	return (&finishedMsg{verifyData: f.Blob}).marshal()
+}
+func VerifUnmarshalFinished(data []byte) (ok bool, f VerifHS, re []byte, err error) {
+	m := new(finishedMsg)
+	if ok = m.unmarshal(data); ok {
+		f.Blob = m.verifyData
+		m.raw = nil
+		re, err = m.marshal()
+	}
+	return
+}
